@@ -1428,19 +1428,19 @@ Section Refine.
         rewrite EK in Hz. rewrite nth_error_app2 in Hz by lia. rewrite Nat.sub_diag in Hz.
         destruct K2 as [|k K2']; [discriminate|]. cbn in Hz. inversion Hz; subst.
         pose proof (H1 z H) as A1. pose proof (G2 z (or_introl eq_refl)) as A2.
-        rewrite (lt_asym ltb lt_irrefl lt_trans _ _ A1) in A2. discriminate.
+        pose proof (lt_asym ltb lt_irrefl lt_trans _ _ A1) as A3. unfold C07_BTreeOrder.lt in A2. congruence.
       + assert (exists z, nth_error (K1 ++ K2) (length J1) = Some z) as [z Hz].
         { destruct (nth_error (K1 ++ K2) (length J1)) eqn:N; [eauto|]. apply nth_error_None in N. rewrite app_length in N. lia. }
         assert (In z K1) by (rewrite nth_error_app1 in Hz by lia; eapply nth_error_In; eauto).
         rewrite <- EK in Hz. rewrite nth_error_app2 in Hz by lia. rewrite Nat.sub_diag in Hz.
         destruct J2 as [|k J2']; [discriminate|]. cbn in Hz. inversion Hz; subst.
         pose proof (G1 z H) as A1. pose proof (H2 z (or_introl eq_refl)) as A2.
-        rewrite (lt_asym ltb lt_irrefl lt_trans _ _ A1) in A2. discriminate.
+        pose proof (lt_asym ltb lt_irrefl lt_trans _ _ A1) as A3. unfold C07_BTreeOrder.lt in A2. congruence.
     - exfalso. rewrite E in EK.
       assert (Hy : In y (J1 ++ J2)) by (rewrite EK; apply in_or_app; right; left; reflexivity).
       apply in_app_or in Hy as [Hy|Hy].
-      + pose proof (H1 y Hy) as A. destruct EQ as [_ E2]. unfold C07_BTreeOrder.lt in A. congruence.
-      + pose proof (H2 y Hy) as A. destruct EQ as [E1 _]. unfold C07_BTreeOrder.lt in A. congruence.
+      + pose proof (H1 y Hy) as AA. destruct EQ as [_ E2]. unfold C07_BTreeOrder.lt in AA. congruence.
+      + pose proof (H2 y Hy) as AA. destruct EQ as [E1 _]. unfold C07_BTreeOrder.lt in AA. congruence.
   Qed.
 
   Lemma items_find_yes its x J1 y J2 : sorted its -> its = J1 ++ y :: J2 -> eqv x y ->
@@ -1449,10 +1449,10 @@ Section Refine.
     intros Hs E EQ. destruct (items_find_spec its x Hs) as [K1 K2 EK G1 G2|K1 y' K2 EK G1 EQ' G2].
     - exfalso. assert (Hy : In y (K1 ++ K2)) by (rewrite <- EK, E; apply in_or_app; right; left; reflexivity).
       apply in_app_or in Hy as [Hy|Hy].
-      + pose proof (G1 y Hy) as A. destruct EQ as [_ E2]. unfold C07_BTreeOrder.lt in A. congruence.
-      + pose proof (G2 y Hy) as A. destruct EQ as [E1 _]. unfold C07_BTreeOrder.lt in A. congruence.
+      + pose proof (G1 y Hy) as AA. destruct EQ as [_ E2]. unfold C07_BTreeOrder.lt in AA. congruence.
+      + pose proof (G2 y Hy) as AA. destruct EQ as [E1 _]. unfold C07_BTreeOrder.lt in AA. congruence.
     - f_equal. rewrite E in EK. rewrite E in Hs. destruct (sorted_mid ltb _ _ _ Hs) as (A1 & A2 & _ & _).
-      destruct (Nat.lt_trichotomy (length K1) (length J1)) as [LT|[EQL|GT]]; [exfalso|symmetry; exact EQL|exfalso].
+      destruct (Nat.lt_trichotomy (length K1) (length J1)) as [LT|[EQL|GT]]; [exfalso|exact EQL|exfalso].
       + (* y' is in J1, hence below y; but both are equivalent to x *)
         assert (Hz : nth_error (J1 ++ y :: J2) (length K1) = Some y') by (rewrite EK; apply nth_error_mid).
         rewrite nth_error_app1 in Hz by lia. apply nth_error_In in Hz. pose proof (A1 y' Hz) as B.
@@ -1460,5 +1460,93 @@ Section Refine.
       + assert (Hz : nth_error (K1 ++ y' :: K2) (length J1) = Some y) by (rewrite <- EK; apply nth_error_mid).
         rewrite nth_error_app1 in Hz by lia. apply nth_error_In in Hz. pose proof (G1 y Hz) as B.
         destruct EQ as [_ E2]. unfold C07_BTreeOrder.lt in B. congruence.
+  Qed.
+
+  Local Notation to_remove := (@to_remove A).
+
+  Definition sel_int (its : list A) (typ : to_remove) : nat * bool :=
+    match typ with
+    | RemoveMax => (length its, false)
+    | RemoveMin => (O, false)
+    | RemoveItem x => items_find ltb its x
+    end.
+
+  (* what `typ` removes from the in-order walk *)
+  Definition rem_spec (typ : to_remove) (L L' : list A) (out : option A) : Prop :=
+    match typ with
+    | RemoveItem x => l0_delete ltb x L = (L', out)
+    | RemoveMax => match out with Some e => L = L' ++ [e] | None => False end
+    | RemoveMin => match out with Some e => L = e :: L' | None => False end
+    end.
+
+  Definition pos_ok (typ : to_remove) (P Q : list A) : Prop :=
+    match typ with
+    | RemoveItem x => all_lt P x /\ lt_all x Q
+    | RemoveMax => Q = []
+    | RemoveMin => P = []
+    end.
+
+  Lemma rem_comp typ P C Q C' out : pos_ok typ P Q -> rem_spec typ C C' out ->
+    rem_spec typ (P ++ C ++ Q) (P ++ C' ++ Q) out.
+  Proof.
+    destruct typ as [x| |]; cbn [pos_ok rem_spec].
+    - intros [HP HQ] E. apply (l0_delete_comp ltb lt_irrefl lt_trans); assumption.
+    - intros -> E. destruct out as [e|]; [|contradiction]. subst C. repeat rewrite app_nil_r. repeat rewrite <- app_assoc. reflexivity.
+    - intros -> E. destruct out as [e|]; [|contradiction]. subst C. reflexivity.
+  Qed.
+
+  Lemma rem_length typ L L' out : rem_spec typ L L' out ->
+    length L = (length L' + match out with Some _ => 1 | None => 0 end)%nat.
+  Proof.
+    destruct typ as [x| |]; cbn [rem_spec].
+    - revert L' out. induction L as [|a L IH]; intros L' out E; cbn [l0_delete] in E.
+      + inversion E; subst. reflexivity.
+      + destruct (ltb a x).
+        * destruct (l0_delete ltb x L) as [L2 o2] eqn:E2. inversion E; subst. cbn [length]. rewrite (IH _ _ eq_refl). lia.
+        * destruct (ltb x a); inversion E; subst; cbn [length]; lia.
+    - destruct out; [|contradiction]. intros ->. rewrite app_length. cbn. lia.
+    - destruct out; [|contradiction]. intros ->. cbn. lia.
+  Qed.
+
+  Lemma remove_internal f N typ : n_ch N <> [] ->
+    remove ltb (S f) N typ lo =
+    let '(i, found) := sel_int (n_its N) typ in
+    match nth_error (n_ch N) i with
+    | None => None
+    | Some child =>
+        if Nat.leb (length (n_its child)) lo then
+          match grow_child N i lo with None => None | Some n' => remove ltb f n' typ lo end
+        else if found then
+          match nth_error (n_its N) i, remove ltb f child RemoveMax lo with
+          | Some out, Some (child', Some pred) =>
+              Some (Node (replace_nth i pred (n_its N)) (replace_nth i child' (n_ch N)) (ix_add_at i (-1) (n_idx N)), Some out)
+          | _, _ => None
+          end
+        else
+          match remove ltb f child typ lo with
+          | None => None
+          | Some (child', out) =>
+              Some (Node (n_its N) (replace_nth i child' (n_ch N))
+                         (match out with Some _ => ix_add_at i (-1) (n_idx N) | None => n_idx N end), out)
+          end
+    end.
+  Proof.
+    intros NE. destruct N as [its ch idx]. cbn [n_ch n_its n_idx] in *. destruct ch as [|c0 cs]; [contradiction|].
+    destruct typ as [x| |]; cbn [remove sel_int n_its n_ch n_idx]; [destruct (items_find ltb its x) as [i found]|..]; reflexivity.
+  Qed.
+
+  Lemma remove_leaf f its typ : sorted its -> its <> [] ->
+    exists its' out, remove ltb (S f) (Node its [] []) typ lo = Some (Node its' [] [], out) /\ rem_spec typ its its' out.
+  Proof.
+    intros Hs NE. destruct typ as [x| |]; cbn [remove n_its n_ch n_idx rem_spec].
+    - destruct (items_find_spec its x Hs) as [I1 I2 E H1 H2|I1 y I2 E H1 EQ H2]; subst its.
+      + exists (I1 ++ I2), None. split; [reflexivity|].
+        change (I1 ++ I2) with (I1 ++ [] ++ I2). apply (l0_delete_comp ltb lt_irrefl lt_trans); auto.
+      + exists (I1 ++ I2), (Some y). rewrite remove_nth_mid, nth_error_mid. split; [reflexivity|].
+        change (I1 ++ y :: I2) with (I1 ++ [y] ++ I2). change (I1 ++ I2) with (I1 ++ [] ++ I2).
+        apply (l0_delete_comp ltb lt_irrefl lt_trans); auto. cbn. destruct EQ as [E1 E2]. rewrite E2, E1. reflexivity.
+    - destruct (exists_last_or_nil its) as [->|(I' & e & ->)]; [contradiction|].
+      exists I', (Some e). rewrite last_opt_snoc, removelast_snoc. split; reflexivity.
+    - destruct its as [|e I']; [contradiction|]. exists I', (Some e). split; reflexivity.
   Qed.
 End Refine.
